@@ -10,6 +10,9 @@ package main
 // The rounds together allocate several times the capacity of the disk.
 
 import (
+	"time"
+	"sync/atomic"
+	"encoding/binary"
 	"bufio"
 	"flag"
 	"fmt"
@@ -238,7 +241,11 @@ func (s *seqRun) nospcScenarios(h int) {
 		}
 	}
 	for _, k := range []uint64{1, 0, 2} {
-		for variant := 0; variant < 2 && !s.dead; variant++ {
+		// variant 2 (round 13, C12m): as variant 0, and the block that /b takes is then made to look like an index block
+		// whose first entry points to that block itself; /a is grown over the offset of its failed write (SETATTR allocates
+		// nothing) and that never-written block is read: an inode that kept the pointer to the index block it was refused
+		// shows /b's bytes there
+		for variant := 0; variant < 3 && !s.dead; variant++ {
 			tag := fmt.Sprintf("history %d nospc k=%d variant=%d", h, k, variant)
 			a := s.mk("create", s.root(), "a")
 			b := s.mk("create", s.root(), "b")
@@ -269,6 +276,30 @@ func (s *seqRun) nospcScenarios(h int) {
 			}
 			s.opWrite(b, 0, 4096, 2, bdata)
 			bOk := s.lastStatus == nfstypes.NFS3_OK
+			if variant == 2 && bOk {
+				if bb := s.bmSnapshot(b).blks; len(bb) > 0 && bb[0] != 0 {
+					for x := range bdata {
+						bdata[x] |= 1
+					}
+					binary.LittleEndian.PutUint64(bdata[0:8], bb[0])
+					s.opWrite(b, 0, 4096, 2, bdata)
+					sz := uint64(9 * 4096)
+					s.opSetattr(a, &sz, timeHow{}, timeHow{})
+					if s.lastStatus == nfstypes.NFS3_OK {
+						var rd nfstypes.READ3res
+						if s.guarded("read of the never-written block", func() {
+							rd = s.srv.NFSPROC3_READ(nfstypes.READ3args{File: mkfh3(a), Offset: 8 * 4096, Count: 4096})
+						}) && rd.Status == nfstypes.NFS3_OK {
+							for x, c := range rd.Resok.Data {
+								if c != 0 {
+									s.oracle("C12", "unwritten-bytes-nonzero", fmt.Sprintf("%s: with %d free blocks a WRITE to /a at offset %d failed=%v; /b then took the last block (number %d) and wrote to it; /a was grown to 9 blocks by SETATTR and a READ of its block 8, which was never written, returns byte %#x at %d (and %d bytes that equal /b's)", tag, k, off, failedA, bb[0], c, x, sameBytes(rd.Resok.Data, bdata)))
+									break
+								}
+							}
+						}
+					}
+				}
+			}
 			// nothing (or one block) is left now: requests that need a block for a new object
 			s.c09 = true
 			s.afterOp("prime", false)
@@ -448,6 +479,7 @@ func cmdReclaim(fs *flag.FlagSet, args []string) {
 			}
 			s.fsckPoint(fmt.Sprintf("history %d directed remove-during-truncate %d", h, k))
 		}
+		s.shrinkerExitScenario(h, sz, base)
 		// directed: files of about the size one transaction can free (the estimate that decides between
 		// freeing at once and handing over to the background shrinker must cover everything a freed block dirties)
 		for k, nblk := range []uint64{240, 260, 300, 400, 480, 506, 507, 520} {
@@ -538,4 +570,88 @@ func cmdReclaim(fs *flag.FlagSet, args []string) {
 		}
 		emit("%s", line)
 	}
+}
+
+func sameBytes(a, b []byte) int {
+	n := 0
+	for i := range a {
+		if i < len(b) && a[i] == b[i] {
+			n++
+		}
+	}
+	return n
+}
+
+// shrinkerExitScenario (round 13, C05m; model M15): the background thread that finishes a truncation is held right
+// after the commit of its LAST transaction — the inode's lock is free, the thread has not yet left — and the file is
+// removed in that window (pending again).  Whoever is told "a thread already exists" must not rely on that thread:
+// it has had its last look.  Afterwards everything is removed, background freeing finishes, and the free counts must
+// be those of the empty file system.
+func (s *seqRun) shrinkerExitScenario(h int, sz uint64, base [2]uint64) {
+	if s.dead {
+		return
+	}
+	s.opCreate("create", s.root(), "lastlook", 0, nil)
+	v := s.handleOf(s.root(), "lastlook")
+	if v == nil {
+		return
+	}
+	// 64 real blocks and a sparse size of 2000 blocks: whether a truncation is left to the background is decided by the
+	// number of blocks the SIZE change spans, so both truncations below (2000 -> 1000 -> removal) are
+	s.opWrite(v, 0, 64*4096, 0, s.mkData(64*4096))
+	big := uint64(2000 * 4096)
+	s.opSetattr(v, &big, timeHow{}, timeHow{})
+	s.waitIdle()
+	st := s.srv.VerifFsState()
+	inum := inumOf(v)
+	gate := make(chan struct{})
+	parked := make(chan struct{}, 1)
+	var held int32
+	old := fstxn.VerifObserver
+	fstxn.VerifObserver = func(kind string, op *fstxn.FsTxn, arg uint64) {
+		if old != nil {
+			old(kind, op, arg)
+		}
+		if os.Getenv("VERIF_DEBUG") != "" && (kind == "commit-end" || kind == "begin") {
+			fmt.Fprintf(os.Stderr, "shrinker-exit: %s gid=%d main=%d\n", kind, curGid(), atomic.LoadUint64(&seqMainGid))
+		}
+		if kind == "commit-end" && curGid() != atomic.LoadUint64(&seqMainGid) && atomic.LoadInt32(&held) == 0 {
+			if os.Getenv("VERIF_DEBUG") != "" {
+				fmt.Fprintf(os.Stderr, "shrinker-exit: commit-end gid=%d main=%d pending=%v\n", curGid(), atomic.LoadUint64(&seqMainGid), pendingShrinks(st))
+			}
+			still := false
+			for _, p := range pendingShrinks(st) {
+				if p == inum {
+					still = true
+				}
+			}
+			if !still && atomic.CompareAndSwapInt32(&held, 0, 1) {
+				parked <- struct{}{}
+				<-gate
+			}
+		}
+	}
+	half := uint64(1000 * 4096)
+	s.opSetattr(v, &half, timeHow{}, timeHow{}) // too many blocks for one transaction: a shrinker thread takes over
+	inWindow := false
+	select {
+	case <-parked:
+		inWindow = true
+	case <-time.After(8 * time.Second):
+	}
+	if inWindow {
+		s.opRemove("remove", s.root(), "lastlook") // the rest of the file: pending again, while the thread is about to exit
+	}
+	if atomic.CompareAndSwapInt32(&held, 0, 2) || true {
+		close(gate)
+	}
+	fstxn.VerifObserver = old
+	s.deleteTree(s.root())
+	after := s.freeCounts()
+	s.hist["shrinker-exit-window:"+map[bool]string{true: "hit", false: "not-hit"}[inWindow]]++
+	if after != base && inWindow {
+		s.oracle("C05", "space-not-reclaimed", fmt.Sprintf("history %d (disk %d): a file of 64 blocks and a sparse size of 2000 blocks was truncated to 1000 blocks; the background thread was held right after the commit of its last transaction (lock released, thread not yet gone) and the file was REMOVED in that window; after the thread went on and everything was removed the allocators report %d free blocks / %d free inodes; the empty file system had %d / %d: nobody finished the second truncation",
+			h, sz, after[0], after[1], base[0], base[1]))
+	}
+	s.fsckPoint(fmt.Sprintf("history %d directed remove-while-the-shrinker-exits", h))
 }
